@@ -1,0 +1,85 @@
+//go:build verif
+
+// Contracts for the govc verifier (see /verif/DESIGN.md). Comment-only file.
+package cryptz
+
+//@ global prePadPatterns:
+//@   invariant forall n in 0..17: len(prePadPatterns[n]) == n && forall k in 0..n: prePadPatterns[n][k] == n
+
+//@ func init
+//@   loop 1:
+//@     unroll 18
+
+//@ func AESCBCEncryptLen
+//@   ensures result == 16*(len(plainText)/16 + 1)
+//@ func AESCBCDecryptLen
+//@   ensures result == len(cipherText)
+//@ func AESGCMEncryptLen
+//@   ensures result == len(plainText) + 16
+//@ func AESGCMDecryptLen
+//@   ensures result == len(cipherText) - 16
+
+//@ spec padOK(data bytes_any, n int) bool = 1 <= data[len(data)-1] && data[len(data)-1] <= n && forall k in len(data)-data[len(data)-1]..len(data): data[k] == data[len(data)-1]
+
+//@ func pkcs7UnPadding
+//@   requires len(data) >= 16
+//@   ensures (result2 == nil) == padOK(data, 16)
+//@   ensures result2 == nil ==> result1 == len(data) - data[len(data)-1]
+//@   ensures result2 != nil ==> result1 == 0
+
+//@ func PKCS7UnPadding
+//@   ensures (result2 == nil) == (len(data) > 0 && blockSize > 0 && len(data)%blockSize == 0 && padOK(data, blockSize))
+//@   ensures result2 == nil ==> sameArray(result1, data) && result1.off == data.off && len(result1) == len(data) - data[len(data)-1]
+//@   ensures result2 != nil ==> len(result1) == 0
+
+//@ func PKCS7Padding
+//@   requires blockSize <= 255
+//@   modifies data[len(data):cap(data)]
+//@   ensures (result2 == nil) == (len(data) > 0 && blockSize > 0)
+//@   ensures result2 == nil ==> len(result1) == len(data) + blockSize - len(data)%blockSize
+//@   ensures result2 == nil ==> forall k in 0..len(data): result1[k] == old(data[k])
+//@   ensures result2 == nil ==> forall k in len(data)..len(result1): result1[k] == blockSize - len(data)%blockSize
+
+//@ func PKCS5Padding
+//@   modifies data[len(data):cap(data)]
+//@   ensures (result2 == nil) == (len(data) > 0)
+//@   ensures result2 == nil ==> len(result1) == len(data) + 8 - len(data)%8
+//@ func PKCS5UnPadding
+//@   ensures (result2 == nil) == (len(data) > 0 && len(data)%8 == 0 && padOK(data, 8))
+
+//@ func AESCBCEncrypt
+//@   requires len(dst) == 16*(len(plainText)/16 + 1)
+//@   requires len(iv) == 16
+//@   requires sameArray(dst, plainText) ==> dst.off == plainText.off
+//@   modifies dst[0:len(dst)]
+//@   ensures (result == nil) == (len(key) == 16 || len(key) == 24 || len(key) == 32)
+//@   at after-call5:
+//@     assert forall k in len(plainText)..len(dst): dst[k] == len(dst) - len(plainText)
+//@     assert forall k in 0..len(plainText): dst[k] == old(plainText[k])
+
+//@ func AESCBCDecrypt
+//@   requires len(dst) == len(cipherText)
+//@   requires len(iv) == 16
+//@   requires sameArray(dst, cipherText) ==> dst.off == cipherText.off
+//@   modifies dst[0:len(dst)]
+//@   ensures (len(cipherText) < 16 || len(cipherText)%16 != 0) ==> result2 != nil
+//@   ensures !(len(key) == 16 || len(key) == 24 || len(key) == 32) ==> result2 != nil
+//@   ensures result2 == nil ==> padOK(dst, 16) && result1 == len(dst) - dst[len(dst)-1]
+//@   ensures result2 != nil ==> result1 == 0
+
+//@ func AESGCMEncrypt
+//@   requires len(dst) >= len(plainText) + 16
+//@   requires len(nonce) > 0
+//@   modifies dst[0:cap(dst)]
+//@   ensures (result == nil) == (len(key) == 16 || len(key) == 24 || len(key) == 32)
+
+//@ func AESGCMDecrypt
+//@   requires len(nonce) > 0
+//@   modifies dst[0:cap(dst)]
+//@   ensures !(len(key) == 16 || len(key) == 24 || len(key) == 32) ==> result != nil
+//@   ensures len(cipherText) < 16 ==> result != nil
+
+//@ func verifPKCS7RoundTrip
+//@   requires len(d) > 0 && 1 <= b && b <= 255
+//@   modifies d[len(d):cap(d)]
+//@   ensures result2 == nil && len(result1) == len(d) && forall k in 0..len(d): result1[k] == old(d[k])
